@@ -252,6 +252,8 @@ class PropertyDescriptorRelation(PredicateClassRelation):
         relation_condition = (
             lambda relation: relation.property_descriptor_cls
             is self.property_descriptor_cls
+            # instances that are dead but not yet removed from the graph take no part in new inferences.
+            and relation.target.instance is not None
         )
         yield from SymbolGraph().get_outgoing_relations_with_condition(
             self.target, relation_condition
@@ -267,6 +269,8 @@ class PropertyDescriptorRelation(PredicateClassRelation):
         relation_condition = (
             lambda relation: relation.property_descriptor_cls
             is self.property_descriptor_cls
+            # instances that are dead but not yet removed from the graph take no part in new inferences.
+            and relation.source.instance is not None
         )
         yield from SymbolGraph().get_incoming_relations_with_condition(
             self.source, relation_condition
